@@ -419,7 +419,7 @@ func c01Consumes(kinds string) bool {
 }
 
 func genC01(rng *rand.Rand, tier string) (cases []string) {
-	per := 300
+	per := 600
 	if tier == "thorough" {
 		per = 6000
 	}
